@@ -18,8 +18,9 @@ LEVEL = 'fault_enumeration'
 RULE = ('place = (phase x kind of program use) or (action x actor/program shape); a place that starts several '
         'processes has one target per process.  Part A: every place x program form {executable path, %, $, @symbol, '
         '-python} x timeout history {default, before, before-early, after, none-then-value, value-then-none} '
-        '[x --act for setup/act places], child returns at once, every M2 record compared with the reference model; '
-        'class key = (A, place, phase, form, history, mode).  Part R: seeded random sequences of uses and timeout '
+        '[x --act for setup/act/cleanup places: all histories in thorough, two in quick], child returns at once, up to 6 places of the same phase and form '
+        'share one case (batching only), every M2 record compared with the reference model; evaluations = number of '
+        'place uses; class key = (A, place, phase, form, history, mode).  Part R: seeded random sequences of uses and timeout '
         'instructions over all phases; class key = (R, number of timeout changes, set of places).  Part B: real '
         'processes, every (place, target process) x behaviour {sleeps 30 s under timeout 1 -> must be killed, '
         'HARD_ERROR in the phase of use, cleanup ran, sandbox removed, pid gone, no finished-marker; same ignoring '
@@ -45,10 +46,11 @@ ASSUMPTIONS = [
 EXHAUSTIVE_NOTE = ('place x form x history table of part A and the (place, target) list of part B (behaviour '
                    '"sleeps past timeout") are enumerated completely in both tiers; thorough adds every form x '
                    'behaviour x history for the real kills')
-MIN_OBS = {'quick': {'evaluations': 2500, 'c19.m2_records_checked': 9000, 'c19.places_reached': 3000,
-                     'c19.kill_decided': 140, 'c19.nokill_decided': 40, 'classes': 2000},
-           'thorough': {'evaluations': 6000, 'c19.m2_records_checked': 25000, 'c19.places_reached': 8000,
-                        'c19.kill_decided': 1500, 'c19.nokill_decided': 600, 'classes': 3000}}
+MIN_OBS = {'quick': {'evaluations': 3800, 'c19.m2_records_checked': 5000, 'c19.places_reached': 4500,
+                     'c19.kill_decided': 140, 'c19.nokill_decided': 40, 'classes': 3000},
+           'thorough': {'evaluations': 12000, 'c19.m2_records_checked': 20000, 'c19.places_reached': 14000,
+                        'c19.kill_decided': 1800, 'c19.nokill_decided': 900, 'classes': 8000}}
+KNOWN = {}  # no defect of Exactly found by this check
 
 DEFAULT_TIMEOUT = 60  # `help concept timeout`: "Default 60"
 SETUP, ACT, BEFORE_ASSERT, ASSERT, CLEANUP = 'setup', 'act', 'before-assert', 'assert', 'cleanup'
@@ -126,6 +128,9 @@ PLACES = {
     'env=string+transformer-run': _pl(INSTR_PHASES, F4, ['p'],
                                       lambda u: ['env C19_%s = "t" -transformed-by run %s'
                                                  % (u.uid.upper(), u.P(cat=True))]),
+    'file=filter-by-equals-stdout-from': _pl(INSTR_PHASES, F4, ['p'],
+                                             lambda u: ['file %s = "hi" -transformed-by filter contents equals '
+                                                        '-stdout-from %s' % (u.fn('f'), u.P(out='hi'))]),
     # ---- through symbols defined at the top of [setup] ----------------------------------------------
     'symbol:text-source': _pl(INSTR_PHASES, F4, ['p'],
                               lambda u: (u.pre('def text-source %s = -stdout-from %s' % (u.sym('TS'), u.P(out='hi'))),
@@ -164,6 +169,10 @@ PLACES = {
     'stdout:negated-text-matcher-run': _pl([ASSERT], F4, ['p'], lambda u: ['stdout ! run ' + u.P(rc=1)]),
     'stdout:transformer-run': _pl([ASSERT], F4, ['p'],
                                   lambda u: ['stdout -transformed-by run ' + u.P(cat=True), '  equals "hi"']),
+    'stdout:equals-stdout-from': _pl([ASSERT], F4, ['p'], lambda u: ['stdout equals -stdout-from ' + u.P(out='hi')]),
+    'contents:equals-stderr-from': _pl([ASSERT], F4, ['p'],
+                                       lambda u: ['file %s = "hi"' % u.fn('f'),
+                                                  'contents %s : equals -stderr-from %s' % (u.fn('f'), u.P(err='hi'))]),
     'contents:text-matcher-run': _pl([ASSERT], F4, ['p'],
                                      lambda u: ['file %s = "hi"' % u.fn('f'),
                                                 'contents %s : run %s' % (u.fn('f'), u.P())]),
@@ -232,7 +241,7 @@ HISTS = ['default', 'before', 'before-early', 'after', 'none-then-value', 'value
 
 # closed vocabulary of INTEGER expressions (value computed here, never by Exactly)
 TIMEOUT_VOCAB = [('none', None), ('7', 7), ('1000', 1000), ('61', 61), ('59', 59), ('5+2', 7), ('2*4', 8),
-                 ('10-1', 9), ('3600', 3600), ('2', 2), ('86400', 86400), ('600', 600), ('"12"', 12), ('(3+4)*2', 14)]
+                 ('10-1', 9), ('3600', 3600), ('30', 30), ('86400', 86400), ('600', 600), ('"12"', 12), ('(3+4)*2', 14)]
 
 
 # =============================================================================================
@@ -250,61 +259,75 @@ def _S(phase, sid):
     return [phase, 'S', sid]
 
 
-def _hist_items(place, phase, form, hist):
-    """-> list of items or None when the history does not exist for the place."""
-    p = PLACES[place]
+def _hist_items(places, phase, form, hist):
+    """Items of one part-A case: the uses of `places` (all in `phase`, same program form) under one timeout history.
+    -> list of items, or None when the history does not exist there."""
     T7 = lambda ph: _T(ph, '7', 7)
     TN = lambda ph: _T(ph, 'none', None)
-    U1 = _U(phase, place, form, 'u1')
+    us = [_U(phase, pl, form, 'u%d' % (k + 1)) for k, pl in enumerate(places)]
+    p = PLACES[places[0]]
     if p['kind'] == 'act' or p['deferred']:
         # the process is started in the act phase; the timeout instructions live in [setup] / [before-assert]
-        pre_u = [U1] if p['kind'] == 'act' else []  # items are sorted by phase when rendered
-        post_u = [U1] if p['deferred'] else []
+        # (items are grouped by phase when rendered; a `stdin` use stays the last item of [setup])
+        assert len(places) == 1
         if hist == 'default':
-            return [U1]
+            return us
         if hist == 'before':
-            return [T7(SETUP)] + post_u + pre_u
+            return [T7(SETUP)] + us
         if hist == 'before-early':
             return None
         if hist == 'after':
-            return post_u + pre_u + [T7(BEFORE_ASSERT), _S(BEFORE_ASSERT, 's1'), _S(CLEANUP, 's2')]
+            return us + [T7(BEFORE_ASSERT), _S(BEFORE_ASSERT, 's1'), _S(CLEANUP, 's2')]
         if hist == 'none-then-value':
-            return [TN(SETUP), _S(SETUP, 's1'), T7(SETUP)] + post_u + pre_u
+            return [TN(SETUP), _S(SETUP, 's1'), T7(SETUP)] + us
         if hist == 'value-then-none':
-            return [T7(SETUP), _S(SETUP, 's1'), TN(SETUP)] + post_u + pre_u
+            return [T7(SETUP), _S(SETUP, 's1'), TN(SETUP)] + us
         raise ValueError(hist)
     if hist == 'default':
-        return [U1]
+        return us
     if hist == 'before':
-        return [T7(phase), U1]
+        return [T7(phase)] + us
     if hist == 'before-early':
         if phase == SETUP:
             return None
-        return [T7(SETUP), U1]
+        return [T7(SETUP)] + us
     if hist == 'after':
-        return [U1, T7(phase), _S(phase, 's1')]
+        return us + [T7(phase), _S(phase, 's1')]
     if hist == 'none-then-value':
-        return [TN(phase), _S(phase, 's1'), T7(phase), U1]
+        return [TN(phase), _S(phase, 's1'), T7(phase)] + us
     if hist == 'value-then-none':
-        return [T7(phase), U1, TN(phase), _U(phase, place, form, 'u2')]
+        return [T7(phase)] + us + [TN(phase)] + [_U(phase, pl, form, 'v%d' % (k + 1)) for k, pl in enumerate(places)]
     raise ValueError(hist)
 
 
-def _part_a():
-    for place in PLACE_NAMES:
-        p = PLACES[place]
-        for phase in p['phases']:
-            for form in p['forms']:
-                for hist in HISTS:
-                    items = _hist_items(place, phase, form, hist)
-                    if items is None:
-                        continue
-                    modes = ['normal']
-                    if phase in (SETUP, ACT, CLEANUP):
-                        modes.append('act')
-                    for mode in modes:
-                        yield {'part': 'A', 'mode': mode, 'items': items, 'kill': None,
-                               'label': {'place': place, 'phase': phase, 'form': form, 'hist': hist}}
+A_BATCH = 6  # places per part-A case (every place still meets every form x history x phase)
+ALL_FORMS = F4 + ['python']
+
+
+def _part_a(tier):
+    groups = []  # (phase, form, [places])
+    for phase in INSTR_PHASES:
+        for form in ALL_FORMS:
+            pls = [pl for pl in PLACE_NAMES if PLACES[pl]['kind'] != 'act' and not PLACES[pl]['deferred']
+                   and phase in PLACES[pl]['phases'] and form in PLACES[pl]['forms']]
+            for k in range(0, len(pls), A_BATCH):
+                groups.append((phase, form, pls[k:k + A_BATCH]))
+    for pl in PLACE_NAMES:
+        if PLACES[pl]['kind'] == 'act' or PLACES[pl]['deferred']:
+            for form in PLACES[pl]['forms']:
+                groups.append((PLACES[pl]['phases'][0], form, [pl]))
+    for phase, form, pls in groups:
+        for hist in HISTS:
+            items = _hist_items(pls, phase, form, hist)
+            if items is None:
+                continue
+            modes = ['normal']
+            # --act ("[before-assert] and [assert] are skipped") is an extra on top of the exhaustive table
+            if phase in (SETUP, ACT, CLEANUP) and (tier == 'thorough' or hist in ('before', 'value-then-none')):
+                modes.append('act')
+            for mode in modes:
+                yield {'part': 'A', 'mode': mode, 'items': items, 'kill': None,
+                       'label': {'phase': phase, 'form': form, 'hist': hist, 'places': pls}}
 
 
 _KILL_BEHS = ('sleep', 'igterm')
@@ -393,7 +416,7 @@ def _part_b(tier):
 
 def _part_r(tier, seed):
     rng = common.rng_for(seed, ID, 'R')
-    n = 200 if tier == 'quick' else 3000
+    n = 150 if tier == 'quick' else 2500
     instr_places = [pl for pl in PLACE_NAMES if PLACES[pl]['kind'] != 'act']
     act_places = [pl for pl in PLACE_NAMES if PLACES[pl]['kind'] == 'act']
     for _ in range(n):
@@ -435,10 +458,12 @@ def _part_r(tier, seed):
 def cases(tier, seed):
     sampled = set()
     i = 0
-    for gen in (_part_b(tier), _part_a(), _part_r(tier, seed)):
+    for gen in (_part_b(tier), _part_a(tier), _part_r(tier, seed)):
         for c in gen:
             kind = (c['part'], (c['kill'] or {}).get('beh'), c['label'].get('hist') if c['part'] == 'A' else None)
-            if i % 16 == 0 and kind not in sampled and (c['part'] != 'A' or kind[2] in ('value-then-none', 'after')):
+            wanted = kind in (('B', 'sleep', None), ('B', 'early', None), ('A', None, 'value-then-none'),
+                              ('R', None, None))
+            if i % 16 == 0 and wanted and kind not in sampled:
                 sampled.add(kind)
                 c = dict(c, sample=True)
             yield c
@@ -518,7 +543,7 @@ class _Builder:
             self.prelude.append('def program %s = %s' % (symname, base))
             return '@ ' + symname
         if form == 'python':
-            return '-python -c pass ' + ctrl
+            return '-python -c "import sys;sys.stdout.write(\'hi\')" ' + ctrl
         raise ValueError(form)
 
 
@@ -566,7 +591,7 @@ def _target_ctrl(b, beh):
 
 
 def render(case, case_dir):
-    """-> (text, files, extra_argv)"""
+    """-> (text, files, extra_argv, builder)"""
     b = _Builder(case_dir, case)
     kill = case.get('kill')
     body = {ph: [] for ph in PHASE_ORDER}
@@ -640,9 +665,22 @@ def _proc_state(pid, token):
     return 'alive' if token.encode() in cmd else 'reused'
 
 
-def _check_m2(case, r, exp, ctx, bad, inconc, stop_after=None):
+def _describe_ids(case):
+    d = {'act': 'the action (command line actor)', 'm': 'cleanup marker'}
+    for it in case['items']:
+        if it[1] == 'S':
+            d[it[2]] = 'plain `run` in [%s]' % it[0]
+        elif it[1] == 'U':
+            for t in PLACES[it[2]]['tags']:
+                d['%s.%s' % (it[4], t)] = 'place "%s"%s in [%s], program form %s' % (
+                    it[2], '' if len(PLACES[it[2]]['tags']) == 1 else ' process "%s"' % t, it[0], it[3])
+    return d
+
+
+def _check_m2(case, r, exp, ctx, bad, inconc):
     """Every subprocess.call recorded for the case must carry the timeout in force at its instruction."""
     seen = {}
+    desc = _describe_ids(case)
     for c in r.calls:
         i = _id_of_call(c)
         if i is None or i not in exp:
@@ -652,8 +690,8 @@ def _check_m2(case, r, exp, ctx, bad, inconc, stop_after=None):
         ctx.count('c19.m2_records_checked')
         seen[i] = seen.get(i, 0) + 1
         if not _same_timeout(c['timeout'], exp[i]):
-            bad('process %s started with timeout=%r, timeout in force at that point is %r'
-                % (i, c['timeout'], exp[i]),
+            bad('process %s = %s: started with timeout=%r, timeout in force at that point is %r'
+                % (i, desc.get(i), c['timeout'], exp[i]),
                 {'m2_record': {k: c[k] for k in ('args', 'shell', 'timeout')}, 'expected_timeout': exp[i]})
     return seen
 
@@ -671,7 +709,7 @@ def run_case(case, ctx):
     exp, where = model(case)
     lab = case['label']
     viol, inconc = [], []
-    head = 'C19/%s %s' % (case['part'], ' '.join('%s=%s' % kv for kv in sorted(lab.items())))
+    head = 'C19/%s %s' % (case['part'], ' '.join('%s=%s' % kv for kv in sorted(lab.items()) if kv[0] != 'places'))
 
     def bad(msg, detail=None):
         dd = {'case_text': text, 'argv': argv[:-1] + ['<case>'], 'mode': mode, 'observed': r.brief()}
@@ -683,6 +721,8 @@ def run_case(case, ctx):
     elapsed = time.monotonic() - t0
     kill = case.get('kill')
     outcome = '-'
+    # the M2 records are facts whatever happened afterwards (also when the watchdog interrupted the run)
+    seen = _check_m2(case, r, exp, ctx, bad, inconc)
     if r.timed_out:
         inconc.append('watchdog (40 s) fired')
         outcome = 'watchdog'
@@ -693,7 +733,6 @@ def run_case(case, ctx):
         ident = driver.first_line(r.out) if mode == 'normal' else \
             next((l for l in r.err.split('\n') if l in driver.OUTCOME_TABLE), 'completed')
         outcome = ident
-        seen = _check_m2(case, r, exp, ctx, bad, inconc)
         if kill is None:
             # ---------------- part A / R : nothing waits, everything must have been reached ---------
             ok = (r.rc == 0 and ident == 'PASS') if mode == 'normal' else (r.rc == 0 and ident == 'completed')
@@ -704,7 +743,8 @@ def run_case(case, ctx):
                     ctx.count('c19.places_reached')
                 else:
                     ctx.count('c19.places_not_reached')
-                    inconc.append('no subprocess.call observed for %s (monitor not reached)' % i)
+                    inconc.append('no subprocess.call observed for %s = %s (monitor not reached)'
+                                  % (i, _describe_ids(case).get(i)))
             if r.new_tmp_entries:
                 bad('sandbox (or other temp entries) left behind: %r' % (r.new_tmp_entries,))
         else:
@@ -713,13 +753,14 @@ def run_case(case, ctx):
     ses.clean_tmp()
     ses.drop(d)
     if case['part'] == 'A':
-        cls = ('A', lab['place'], lab['phase'], lab['form'], lab['hist'], mode)
+        cls = [('A', pl, lab['phase'], lab['form'], lab['hist'], mode) for pl in lab['places']]
     elif case['part'] == 'B':
-        cls = ('B', lab['place'], lab['tag'], lab['phase'], lab['form'], lab['beh'], lab['hist'], mode, outcome)
+        cls = [('B', lab['place'], lab['tag'], lab['phase'], lab['form'], lab['beh'], lab['hist'], mode, outcome)]
     else:
         places = sorted({it[2] for it in case['items'] if it[1] == 'U'})
-        cls = ('R', sum(1 for it in case['items'] if it[1] == 'T'), mode, places)
-    res = {'classes': [cls], 'viol': viol, 'inconclusive': inconc}
+        cls = [('R', sum(1 for it in case['items'] if it[1] == 'T'), mode, places)]
+    n_uses = sum(1 for it in case['items'] if it[1] == 'U')
+    res = {'classes': cls, 'viol': viol, 'inconclusive': inconc, 'evaluations': max(1, n_uses)}
     if case.get('sample'):
         res['sample'] = {'part': case['part'], 'label': lab, 'argv': argv[:-1] + ['<case>'],
                          'case_text': text.replace(d, '<CASE-DIR>'),
